@@ -75,11 +75,7 @@ func Round(x float64, prec jtypes.OptionalInt) float64 {
 			x = math.Ceil(intermed)
 		}
 	} else {
-		if x < 0 {
-			x = math.Ceil(intermed - 0.5)
-		} else {
-			x = math.Floor(intermed + 0.5)
-		}
+		x = math.Round(intermed)
 	}
 
 	if x == 0 {
